@@ -152,9 +152,15 @@ class C15:
                 gs = [s for s in gs if s.kind == "call"]
                 if not gs and grp == [st.methods["storage_commit"]]:
                     continue        # a step that does not commit itself has no commit to keep inside the region (C07/C08 decide whether it must)
+                if not gs and len(groups) >= 3:
+                    missing = getattr(self, "_r2_missing", 0) + 1
+                    self._r2_missing = missing
+                    continue        # one part of the section is gone (other properties decide whether it may): the remaining parts still have to share a region
                 if not gs:
                     raise AnalysisError("%s no longer calls %s" % (spec, "/".join(short(g.qname) for g in grp)))
                 sites += gs
+            if len({id(s) for s in sites}) < 2:
+                raise AnalysisError("%s: fewer than two parts of the critical section are left" % spec)
             common = None
             for s in sites:
                 ids = {id(w) for w in self._enclosing_locks(f, s.node)}
@@ -220,3 +226,6 @@ def run(ctx: Ctx, rep: Report, tier: str):
     if tier == "thorough":
         c.thorough_notes()
     rep.assume("threads: Runnable.start creates one thread per manager running Runnable.run; application threads enter only through public CloudSync/SmartCloudSync methods")
+    from rules.common import start_rechecks_after_join
+    rep.rule("C15.R4", "threads per manager: Runnable.start creates the loop thread only past an is_alive() test that follows every join of the old thread", 1)
+    start_rechecks_after_join(ctx, rep, "C15.R4")
